@@ -22,7 +22,7 @@ MARK = st.sampled_from([False, False, True, True, 0.5])
 def population(draw, max_n=24):
     m = draw(st.integers(1, 4))
     shape = draw(st.sampled_from(["grid", "grid", "grid", "chain", "antichain", "identical", "layered", "floats",
-                                  "near-chain"]))
+                                  "near-chain", "penalty"]))
     n = draw(st.integers(1, max_n))
     mk_mode = draw(st.sampled_from(["same", "same", "mixed"]))
     base_mark = draw(MARK)
@@ -31,6 +31,11 @@ def population(draw, max_n=24):
         k = draw(st.sampled_from([1, 2, 4]))
         for _ in range(n):
             vs.append([float(draw(st.integers(0, k))) for _ in range(m)])
+    elif shape == "penalty":
+        # failed simulations carry an infinite cost in some objective (several members in the same one)
+        m = max(m, 2)
+        for _ in range(n):
+            vs.append([draw(st.sampled_from([0.0, 1.0, 2.0, 3.0, float("inf"), float("inf")])) for _ in range(m)])
     elif shape == "chain":
         for i in range(n):
             vs.append([float(i)] * m)
